@@ -118,4 +118,12 @@ theorem src_time_delta_rs_impl_Display : C06_src_time_delta_rs_impl_Display =
 theorem src_time_delta_rs_impl_Sum : C06_src_time_delta_rs_impl_Sum =
     ["<", ">", "v1", "v2", "Sum", "<", "&", "TimeDelta", ">", "for", "TimeDelta", "v3", "<", "I", "Iterator", "<", "Item", "&", "TimeDelta", ">>", "v2", "I", "->", "TimeDelta", "v2", "fold(", "TimeDelta", "zero(", "|", "v4", "v5", "|", "v4", "+", "*", "v5", "§", "v1", "v2", "Sum", "<", "TimeDelta", ">", "for", "TimeDelta", "v3", "<", "I", "Iterator", "<", "Item", "TimeDelta", ">>", "v2", "I", "->", "TimeDelta", "v2", "fold(", "TimeDelta", "zero(", "|", "v4", "v5", "|", "v4", "+", "v5"] := by decide +kernel
 
+/-- callee src/time_delta.rs:fn div_mod_floor_64 -/
+theorem callee_src_time_delta_rs_fn_div_mod_floor_64 : C06_callee_src_time_delta_rs_fn_div_mod_floor_64 =
+    ["v1", "i64", "v2", "i64", "->", "i64", "i64", "v1", "div_euclid(", "v2", "v1", "rem_euclid(", "v2"] := by decide +kernel
+
+/-- callee src/time_delta.rs:fn zero -/
+theorem callee_src_time_delta_rs_fn_zero : C06_callee_src_time_delta_rs_fn_zero =
+    ["->", "TimeDelta", "TimeDelta", "v1", "0", "v2", "0"] := by decide +kernel
+
 end Chrono.Pins.C06
